@@ -39,6 +39,11 @@ fn main() {
         std::panic::set_hook(Box::new(|_| {}));
     }
     let args: Vec<String> = std::env::args().collect();
+    if args.len() >= 2 && args[1] == "c20probe" {
+        // second-process transcript for the reproducibility check (see c09::run_c20)
+        println!("{}", c09::c20_probe());
+        return;
+    }
     if args.len() < 2 {
         eprintln!("usage: vpharness <check> [--tier quick|thorough] [--seed N] [--out DIR] [--shards K]");
         std::process::exit(2);
